@@ -136,6 +136,19 @@ Theorem c06_conc_update : forall o st0 p ts l,
 Proof. exact conc_update_allocate. Qed.
 Print Assumptions c06_conc_update.
 
+(* Release(rel) and Update(p) racing for the node's ledger (both fetch the NodeAllocation pointer,
+   then lock it): whichever critical section runs first, on the same ledger, the ledger invariant
+   holds, p is recorded and rel is gone — the state stream "conc" judges every race episode by *)
+Theorem c06_race_release_update : forall st rel p,
+  linv st -> palloc_wf p -> rel <> p_uid p ->
+  let a := update (release st rel) p in
+  let b := release (update st p) rel in
+  linv a /\ linv b
+  /\ In p (l_pods a) /\ In p (l_pods b)
+  /\ ~ In rel (map p_uid (l_pods a)) /\ ~ In rel (map p_uid (l_pods b)).
+Proof. exact race_release_update. Qed.
+Print Assumptions c06_race_release_update.
+
 Theorem c06_numa_capacity : forall o ops,
   wf_opts o -> nres_nonneg (o_cap o) -> Forall op_sched ops -> within_capacity o (run o ops).
 Proof. exact hist_capacity. Qed.
